@@ -17,7 +17,13 @@ SeqsUpTo(S, n) == UNION {SeqsOf(S, k) : k \in 0..n}
 ProbeQs == { <<97, 123, 50, 125>>, <<123, 49, 125>>, <<110, 123, 51, 44, 125, 116>>, <<97, 123, 49, 44, 50, 125>>, <<97, 124, 99>>, <<40, 97, 41>>,
              <<97, 43>>, <<94, 97>>, <<97, 36>>, <<92, 100>>, <<91, 97, 99, 93>>, <<46, 42>>, <<97, 63>>, <<92, 81, 97>>, <<97, 92>>, <<40, 63, 105, 41, 97>> }
 ProbeSeqs(q) == { q, <<97, 97>> \o q \o <<97, 97>>, <<97, 97, 97, 97>>, <<97, 99, 103, 97, 99, 103, 116>>, <<99, 99, 97, 97, 99, 99>>, <<65, 67, 97, 99>> }
-ProbeItems == UNION {{<<sq, q>> : sq \in ProbeSeqs(q)} : q \in ProbeQs}
+\* sequences with bytes above 0x7f (the UTF-8 form of U+017F "long s", to which a case-insensitive regexp
+\* would fold s) against letter queries
+\* (only U+017F: lower-casing the sequence, which Match does on a copy, turns U+212A and invalid UTF-8 into
+\* byte strings of another length and shifts the reported offsets - sequences of that kind are left out)
+HighSeqs == { <<97, 116, 197, 191, 97, 116>>, <<197, 191>>, <<99, 197, 191, 103, 197, 191>> }
+HighQs == { <<115>>, <<83>>, <<98>>, <<118>>, <<100>>, <<116, 118, 97>>, <<97>>, <<99, 115>>, <<104>> }
+ProbeItems == UNION {{<<sq, q>> : sq \in ProbeSeqs(q)} : q \in ProbeQs} \cup {<<sq, q>> : sq \in HighSeqs, q \in HighQs}
 ScanItems == SetToSeq(ProbeItems \cup UNION {{<<s, q>> : s \in SeqsUpTo(SeqToSet(Alphas[a]), MaxSeq), q \in SeqsUpTo(SeqToSet(Alphas[a]), MaxQ) \ {<<>>}} : a \in 1..Len(Alphas)})
 NItems == IF Mode = "tables" THEN 1 ELSE (Len(ScanItems) + Batch - 1) \div Batch
 Picked == SelectSeq([j \in 1..NItems |-> j], LAMBDA j : (j + (j \div Stride) + (j \div (Stride * Stride))) % Stride = Offset % Stride)
